@@ -38,7 +38,7 @@ ASSUMPTIONS = ["crash = Python-level interruption at a statement boundary, or os
                "stale but valid files of an earlier run (e.g. an old lf.cbin beside a fresh lf.bin) are not a violation: the property asks for a complete, valid set",
                "after the original has been deleted by a verified run the history ends (there is no input left to hand to the converter)"]
 REQUIRED = {"reused_converter_runs": 12, "crash_points_fired": 40, "distinct_crash_sites": 30, "history_steps": 60, "remove_original_judged": 3, "idempotence_checked": 8,
-            "completeness_checked": 20, "recoverability_checked": 100, "corruptions_injected": 12, "originals_with_inconsistent_metadata": 5, "compression_faults_injected": 12}
+            "completeness_checked": 20, "recoverability_checked": 100, "corruptions_injected": 12, "originals_with_inconsistent_metadata": 5, "compression_faults_injected": 12, "long_rebuilds": 1}
 CASE_TIMEOUT = 60.0
 MAX_PROCS = 14
 WINDOW = 1200
@@ -389,6 +389,8 @@ def gen_cases(seed, tier):
     # ---- a storage fault hits one shank file between splitting and verification, in each verification window in turn: with post_check and
     #      delete_original the original may only go once the output has been VERIFIED identical - the audit-hook invariant judges the unlink
     for i in range(6 if tier == "quick" else 48):
+        if i < (1 if tier == "quick" else 6):
+            cases.append({"cls": "long-rebuild", "compress": bool(i % 2), "seed": seed * 100 + 60 + i, "_w": 20})
         cases.append({"cls": "corrupt", "kind": ["NP2.4", "NP2.4r"][i % 2], "compress": bool((i // 2) % 2), "cbin": bool((i // 4) % 2), "seed": seed * 100 + 70 + i, "_w": 8})
     # ---- the compression library fails part-way (first / last chunk of the j-th file it compresses during the conversion): the per-shank / in-place
     #      compression steps are where a full disk or a pulled drive shows up; followed by a retry and a forced re-run
@@ -490,6 +492,34 @@ def run_case(case):
             close_conv(holder["conv"])
         res.sig = f"history-{kind}-{case['opts']}-{case['steps']}-{case['cbin']}-{case['change_opts']}-{bool(case.get('reuse'))}"
         res.nontrivial = len(case["steps"]) >= 2
+        return res
+    if cls == "long-rebuild":
+        # a verified, deleted original of realistic length (more than one 60000-sample verification / reassembly window, not a whole number of them) is
+        # recoverable with what the LIBRARY offers: NP2Reconstructor on the shank folders gives the original back byte for byte
+        import neuropixel
+        root = d / "L"
+        ns = int(rng.integers(60001, 72000))
+        if ns % 60000 == 0:
+            ns += 7
+        b, rec = np2.build(rng, root, kind="NP2.4", ns=ns, content="random", gain=np2.GAIN_PAIRS[int(rng.integers(0, 4))])
+        orig = b.read_bytes()
+        label = f"NP2.4 ns={ns} compress={case['compress']} post_check + delete_original, then NP2Reconstructor"
+        try:
+            conv = neuropixel.NP2Converter(b, post_check=True, compress=case["compress"], delete_original=True)
+            st = conv.process()
+            res.check(st == 1 and not b.exists(), "long-rebuild:conversion", f"{label}: process() returned {st}, original exists: {b.exists()}")
+            rc = neuropixel.NP2Reconstructor(root, "probe00", compress=False)
+            st2 = rc.process()
+            out = root / "probe00" / (np2.NAME + ".bin")
+            same = out.exists() and out.stat().st_size == len(orig) and out.read_bytes() == orig
+            res.count("long_rebuilds")
+            res.check(st2 == 1 and same, "recoverable:lost:library-reassembly", f"{label}: the reassembled file has {out.stat().st_size if out.exists() else 'no'} bytes, the original had "
+                      f"{len(orig)}; identical: {same}")
+        except Exception as e:
+            res.exception("long-rebuild:exception", e, label)
+        res.sig = f"long-rebuild-{case['seed']}"
+        res.nontrivial = True
+        res.nt = 1
         return res
     if cls == "corrupt":
         kind = case["kind"]
